@@ -25,6 +25,7 @@
 #include "time_zone_fixed.h"
 #include "time_zone_posix.h"
 #include "harness_zone.h"
+#include "harness_c18.h"
 
 namespace vz { long g_factory_calls = 0; }
 namespace cctz_extension { ZoneInfoSourceFactory zone_info_source_factory = vz::Factory; }
@@ -131,6 +132,7 @@ struct OpCmp { const Args& a; int t2;
       return os.str(); } };
 };
 
+namespace c18 { std::string unhex_(const std::string& h) { return unhex(h); } std::string hex_(const std::string& s) { return hex(s); } long long I_(const std::string& s) { return I(s); } }
 static std::string run_case(const Args& a);
 static std::string run_case(const Args& a) {
   const std::string& op = a[0];
